@@ -35,6 +35,7 @@ class Ctx:
         self.inputs = {}             # name -> z3 const (declared symbolic inputs)
         self.notes = []              # free-form per-path notes
         self._fresh = 0
+        self._m = None               # a model of the current path condition (or None)
 
     # -- solver ---------------------------------------------------------------------
     def check(self, *extra):
@@ -66,19 +67,43 @@ class Ctx:
             assert d is True or d is False, 'non-deterministic harness: branch replay mismatch'
             self.trace.append((d, alt))
             self.solver.add(cond if d else z3.Not(cond))
+            self._m = None
             return d
-        t_ok = self.sat(cond)
-        f_ok = self.sat(z3.Not(cond))
+        # model-guided: the current model of the path condition witnesses one side for free
+        m = self._model()
+        side = z3.is_true(m.eval(cond, model_completion=True))
+        if side:
+            t_ok = True
+            f_ok = self.sat(z3.Not(cond))
+            if f_ok:
+                alt = self.solver.model()
+        else:
+            f_ok = True
+            t_ok = self.sat(cond)
+            if t_ok:
+                alt = self.solver.model()
         if t_ok:
             self.trace.append((True, f_ok))
             self.solver.add(cond)
+            if not side:
+                self._m = alt
             return True
-        if f_ok:
-            self.trace.append((False, False))
-            self.solver.add(z3.Not(cond))
-            return False
-        self.aborted = True
-        raise Abort()
+        self.trace.append((False, False))
+        self.solver.add(z3.Not(cond))
+        return False
+
+    def _model(self):
+        if self._m is None:
+            if not self.sat():
+                self.aborted = True
+                raise Abort()
+            self._m = self.solver.model()
+        return self._m
+
+    def add(self, *conds):
+        """add constraints that cannot make the path infeasible (ranges of fresh variables)"""
+        self.solver.add(*conds)
+        self._m = None
 
     def choose(self, var, n):
         """n-ary case split on a fresh variable ranging over 0..n-1 (every value is feasible,
@@ -92,6 +117,7 @@ class Ctx:
             k = 0
         self.trace.append(('c', k, n))
         self.solver.add(var == k)
+        self._m = None
         return k
 
     def assume(self, cond):
@@ -100,6 +126,7 @@ class Ctx:
         if not self.sat():
             self.aborted = True
             raise Abort()
+        self._m = self.solver.model()
 
     def fresh_name(self, stem):
         self._fresh += 1
@@ -184,26 +211,38 @@ class SymBool:
         return 'SymBool(%s)' % self.e
 
 
-def _arith(f, swap=False):
-    def op(self, o):
-        try:
-            oz = zt(o)
-        except TypeError:
-            return NotImplemented
-        if z3.is_bool(oz):
-            oz = z3.If(oz, z3.IntVal(1), z3.IntVal(0))
-        return SymInt(f(oz, self.e) if swap else f(self.e, oz))
-    return op
+# interval bounds travel with every proxy (lo/hi: python numbers, None = unbounded).  A comparison
+# that the declared ranges already decide returns a plain bool: no term, no solver query.  This is
+# sound because path conditions only narrow the ranges.
+
+def _bnd(x):
+    """(lo, hi) of a python number / proxy"""
+    if isinstance(x, SymInt):
+        return x.lo, x.hi
+    if isinstance(x, bool):
+        return int(x), int(x)
+    if isinstance(x, (int, float, Fraction)):
+        return x, x
+    return None, None
 
 
-def _cmp(f):
-    def op(self, o):
-        try:
-            oz = zt(o)
-        except TypeError:
-            return NotImplemented
-        return SymBool(f(self.e, oz))
-    return op
+def _badd(a, b):
+    return (None if a[0] is None or b[0] is None else a[0] + b[0],
+            None if a[1] is None or b[1] is None else a[1] + b[1])
+
+
+def _bneg(a):
+    return (None if a[1] is None else -a[1], None if a[0] is None else -a[0])
+
+
+def _bmul(a, b):
+    if None in a or None in b:
+        # constant * unbounded keeps nothing useful except for zero
+        if a == (0, 0) or b == (0, 0):
+            return (0, 0)
+        return (None, None)
+    ps = [a[0] * b[0], a[0] * b[1], a[1] * b[0], a[1] * b[1]]
+    return (min(ps), max(ps))
 
 
 def _truediv(a, b):
@@ -218,32 +257,93 @@ def _floordiv(a, b):
     return z3.ToInt(_truediv(a, b))        # ToInt is floor
 
 
+def _zarg(o):
+    oz = zt(o)
+    if z3.is_bool(oz):
+        oz = z3.If(oz, z3.IntVal(1), z3.IntVal(0))
+    return oz
+
+
 class SymInt:
-    """Proxy for int (Int sort) or float (Real sort)."""
-    __slots__ = ('e',)
+    """Proxy for int (Int sort) or float (Real sort) with interval bounds."""
+    __slots__ = ('e', 'lo', 'hi')
 
-    def __init__(self, e):
-        self.e = e
+    def __init__(self, e, lo=None, hi=None):
+        self.e, self.lo, self.hi = e, lo, hi
+        if lo is None and hi is None and (z3.is_int_value(e) or z3.is_rational_value(e)):
+            v = e.as_long() if z3.is_int_value(e) else Fraction(e.numerator_as_long(), e.denominator_as_long())
+            self.lo = self.hi = v
 
-    __add__ = _arith(lambda a, b: a + b)
-    __radd__ = _arith(lambda a, b: a + b, swap=True)
-    __sub__ = _arith(lambda a, b: a - b)
-    __rsub__ = _arith(lambda a, b: a - b, swap=True)
-    __mul__ = _arith(lambda a, b: a * b)
-    __rmul__ = _arith(lambda a, b: a * b, swap=True)
-    __truediv__ = _arith(_truediv)
-    __rtruediv__ = _arith(_truediv, swap=True)
-    __floordiv__ = _arith(_floordiv)
-    __lt__ = _cmp(lambda a, b: a < b)
-    __le__ = _cmp(lambda a, b: a <= b)
-    __gt__ = _cmp(lambda a, b: a > b)
-    __ge__ = _cmp(lambda a, b: a >= b)
+    def _bin(self, o, f, bf, swap=False):
+        try:
+            oz = _zarg(o)
+        except TypeError:
+            return NotImplemented
+        a, b = (self.lo, self.hi), _bnd(o)
+        if swap:
+            lo, hi = bf(b, a)
+            return SymInt(f(oz, self.e), lo, hi)
+        lo, hi = bf(a, b)
+        return SymInt(f(self.e, oz), lo, hi)
+
+    def __add__(self, o):
+        return self._bin(o, lambda a, b: a + b, _badd)
+
+    def __radd__(self, o):
+        return self._bin(o, lambda a, b: a + b, _badd, True)
+
+    def __sub__(self, o):
+        return self._bin(o, lambda a, b: a - b, lambda a, b: _badd(a, _bneg(b)))
+
+    def __rsub__(self, o):
+        return self._bin(o, lambda a, b: a - b, lambda a, b: _badd(a, _bneg(b)), True)
+
+    def __mul__(self, o):
+        return self._bin(o, lambda a, b: a * b, _bmul)
+
+    def __rmul__(self, o):
+        return self._bin(o, lambda a, b: a * b, _bmul, True)
+
+    def __truediv__(self, o):
+        return self._bin(o, _truediv, lambda a, b: (None, None))
+
+    def __rtruediv__(self, o):
+        return self._bin(o, _truediv, lambda a, b: (None, None), True)
+
+    def __floordiv__(self, o):
+        return self._bin(o, _floordiv, lambda a, b: (None, None))
 
     def __neg__(self):
-        return SymInt(-self.e)
+        lo, hi = _bneg((self.lo, self.hi))
+        return SymInt(-self.e, lo, hi)
 
     def __pos__(self):
         return self
+
+    # comparisons: decided by the intervals when possible
+    def _cmp(self, o, f, decide):
+        try:
+            oz = zt(o)
+        except TypeError:
+            return NotImplemented
+        if z3.is_bool(oz):
+            oz = z3.If(oz, z3.IntVal(1), z3.IntVal(0))
+        d = decide((self.lo, self.hi), _bnd(o))
+        if d is not None:
+            return d
+        return SymBool(f(self.e, oz))
+
+    def __lt__(self, o):
+        return self._cmp(o, lambda a, b: a < b, _dec_lt)
+
+    def __le__(self, o):
+        return self._cmp(o, lambda a, b: a <= b, _dec_le)
+
+    def __gt__(self, o):
+        return self._cmp(o, lambda a, b: a > b, lambda a, b: _dec_lt(b, a))
+
+    def __ge__(self, o):
+        return self._cmp(o, lambda a, b: a >= b, lambda a, b: _dec_le(b, a))
 
     def __eq__(self, o):
         try:
@@ -252,6 +352,9 @@ class SymInt:
             return False
         if z3.is_bool(oz):
             return False
+        d = _dec_eq((self.lo, self.hi), _bnd(o))
+        if d is not None:
+            return d
         return SymBool(self.e == oz)
 
     def __ne__(self, o):
@@ -261,16 +364,22 @@ class SymInt:
             return True
         if z3.is_bool(oz):
             return True
+        d = _dec_eq((self.lo, self.hi), _bnd(o))
+        if d is not None:
+            return not d
         return SymBool(self.e != oz)
 
     def __bool__(self):
-        return CTX.branch(self.e != 0)
+        r = self != 0
+        return r if isinstance(r, bool) else bool(r)
 
     def is_real(self):
         return self.e.sort() == z3.RealSort()
 
     def concretize(self):
         """fork over the feasible values (exhaustive iff the term has a finite range)"""
+        if self.lo is not None and self.lo == self.hi:
+            return self.lo
         e = z3.simplify(self.e)
         if z3.is_int_value(e):
             return e.as_long()
@@ -304,6 +413,33 @@ class SymInt:
     __str__ = __repr__
 
 
+def _dec_lt(a, b):
+    """a < b decided by intervals?"""
+    if a[1] is not None and b[0] is not None and a[1] < b[0]:
+        return True
+    if a[0] is not None and b[1] is not None and a[0] >= b[1]:
+        return False
+    return None
+
+
+def _dec_le(a, b):
+    if a[1] is not None and b[0] is not None and a[1] <= b[0]:
+        return True
+    if a[0] is not None and b[1] is not None and a[0] > b[1]:
+        return False
+    return None
+
+
+def _dec_eq(a, b):
+    if a[0] is not None and a[0] == a[1] and b[0] is not None and b[0] == b[1]:
+        return a[0] == b[0]
+    if a[1] is not None and b[0] is not None and a[1] < b[0]:
+        return False
+    if a[0] is not None and b[1] is not None and a[0] > b[1]:
+        return False
+    return None
+
+
 # ---------------------------------------------------------------------------------------
 # logic combinators that work on python bools and SymBools alike (so that one obligation
 # function serves symbolic exploration and concrete replay)
@@ -317,6 +453,11 @@ def And(*xs):
         xs = tuple(xs[0])
     if _all_concrete(xs):
         return all(bool(x) for x in xs)
+    if any(x is False for x in xs):
+        return False
+    xs = [x for x in xs if x is not True]
+    if len(xs) == 1:
+        return xs[0] if isinstance(xs[0], SymBool) else SymBool(zb(xs[0]))
     return SymBool(z3.And(*[zb(x) for x in xs]))
 
 
@@ -325,6 +466,11 @@ def Or(*xs):
         xs = tuple(xs[0])
     if _all_concrete(xs):
         return any(bool(x) for x in xs)
+    if any(x is True for x in xs):
+        return True
+    xs = [x for x in xs if x is not False]
+    if len(xs) == 1:
+        return xs[0] if isinstance(xs[0], SymBool) else SymBool(zb(xs[0]))
     return SymBool(z3.Or(*[zb(x) for x in xs]))
 
 
@@ -337,6 +483,10 @@ def Not(x):
 def Implies(a, b):
     if _all_concrete([a, b]):
         return (not a) or bool(b)
+    if a is False or b is True:
+        return True
+    if a is True:
+        return b if isinstance(b, SymBool) else SymBool(zb(b))
     return SymBool(z3.Implies(zb(a), zb(b)))
 
 
@@ -353,7 +503,9 @@ def Ite(c, a, b):
     az, bz = zt(a), zt(b)
     if z3.is_bool(az):
         return SymBool(z3.If(zb(c), az, bz))
-    return SymInt(z3.If(zb(c), az, bz))
+    (al, ah), (bl, bh) = _bnd(a), _bnd(b)
+    return SymInt(z3.If(zb(c), az, bz), None if al is None or bl is None else min(al, bl),
+                  None if ah is None or bh is None else max(ah, bh))
 
 
 def Sum(xs):
@@ -371,7 +523,7 @@ def Count(bs):
     bs = list(bs)
     if _all_concrete(bs):
         return sum(1 for b in bs if b)
-    return SymInt(z3.Sum([z3.If(zb(b), 1, 0) for b in bs]))
+    return SymInt(z3.Sum([z3.If(zb(b), 1, 0) if not isinstance(b, bool) else z3.IntVal(int(b)) for b in bs]), 0, len(bs))
 
 
 def Eq(a, b):
@@ -407,16 +559,17 @@ class SymbolicInput:
 
     def int(self, name, lo, hi):
         v = self._declare(name, z3.Int(name))
-        self.c.solver.add(v >= zt(lo), v <= zt(hi))
-        return SymInt(v)
+        self.c.add(v >= zt(lo), v <= zt(hi))
+        return SymInt(v, lo if isinstance(lo, int) else None, hi if isinstance(hi, int) else None)
 
     def real(self, name, lo=None, hi=None, lo_strict=False, hi_strict=False):
         v = self._declare(name, z3.Real(name))
         if lo is not None:
-            self.c.solver.add(v > zt(lo) if lo_strict else v >= zt(lo))
+            self.c.add(v > zt(lo) if lo_strict else v >= zt(lo))
         if hi is not None:
-            self.c.solver.add(v < zt(hi) if hi_strict else v <= zt(hi))
-        return SymInt(v)
+            self.c.add(v < zt(hi) if hi_strict else v <= zt(hi))
+        num = (int, float, Fraction)
+        return SymInt(v, lo if isinstance(lo, num) else None, hi if isinstance(hi, num) else None)
 
     def bool(self, name):
         v = self._declare(name, z3.Bool(name))
